@@ -1,25 +1,50 @@
-"""Reference process for C09: answers {"prov":..., "query":...} lines with the result of the query on an object rebuilt
-from scratch (all functools caches cleared first). It has no history by construction."""
+"""Reference process for C09. Reads {"prov":..., "query":...} lines; for EVERY request it forks a child from its pristine
+state (puan imported, nothing ever built or queried), the child rebuilds the object from its provenance, runs the query, writes
+the canonical result and exits. The answering process therefore has no history whatsoever - not even module-level state
+that is not a functools cache."""
 import json
+import os
 import sys
 
 
-def main():
+def answer(req):
     from vf import build, hist
+    build.clear_caches()
+    try:
+        obj = hist.materialise(req["prov"])
+        res = hist.run_query(obj, req["query"])
+    except BaseException as e:  # noqa
+        res = {"raised_in_build": type(e).__name__}
+    return json.dumps({"result": res}, default=str)
+
+
+def main():
+    import puan                      # noqa: F401  (import only; never used in this parent)
+    import puan.logic.plog           # noqa: F401
+    import puan.modules.configurator # noqa: F401
+    from vf import build, hist       # noqa: F401
     out = sys.stdout
     for line in sys.stdin:
         line = line.strip()
         if not line:
             continue
         req = json.loads(line)
-        build.clear_caches()
-        try:
-            obj = hist.materialise(req["prov"])
-            res = hist.run_query(obj, req["query"])
-        except BaseException as e:  # noqa
-            res = {"raised_in_build": type(e).__name__}
-        build.clear_caches()
-        out.write(json.dumps({"result": res}, default=str) + "\n")
+        r, w = os.pipe()
+        pid = os.fork()
+        if pid == 0:
+            try:
+                os.close(r)
+                data = answer(req).encode()
+                with os.fdopen(w, "wb") as f:
+                    f.write(data)
+            finally:
+                os._exit(0)
+        os.close(w)
+        with os.fdopen(r, "rb") as f:
+            data = f.read()
+        os.waitpid(pid, 0)
+        text = data.decode() if data else json.dumps({"result": {"raised_in_build": "child died"}})
+        out.write(text + "\n")
         out.flush()
 
 
